@@ -53,8 +53,11 @@ theorem parse_render_exact (compiles : Str → Str → Bool) (t : Ast) (s : Str)
     (h : Renders t s) (hc : argsOk compiles t = true) : parse compiles s = some t := by
   simp [parse, parse_render_struct t s h, hc]
 
-/-- The property: every expression built from the documented operators is accepted, and on every flow its verdict
-is the documented one (that of the tree that was written down), whatever the leaves answer. -/
+/-- The property in the DESIGN's ∃-form: every expression built from the documented operators is accepted, and on every
+flow its verdict is the documented one (that of the tree that was written down), whatever the leaves answer.
+The content is the first conjunct, which is `parse_render_exact` (`t' = t`); the verdict conjunct is then DEFINITIONAL
+(`rfl`): it adds nothing of its own - what a tree's verdict is, is said by `eval_documented` / `eval_hom` and tied by the
+`px` and `lv` ops. -/
 theorem parse_render (compiles : Str → Str → Bool) (t : Ast) (s : Str)
     (h : Renders t s) (hc : argsOk compiles t = true) :
     ∃ t', parse compiles s = some t' ∧
@@ -325,7 +328,10 @@ example : leaves (.or [.and [.not (.unary ['q']), .int ['c'] 7], .rex ['u'] ['x'
 /-! ### the body operators answer on every flow, whatever the Content-Encoding -/
 
 /-- What ~b/~bq/~bs search, case by case: nothing for a streamed body; the bytes as received without a
-Content-Encoding; the decoded bytes when the decoder succeeds; the bytes AS RECEIVED when it fails. -/
+Content-Encoding; the decoded bytes when the decoder succeeds; the bytes AS RECEIVED when it fails.
+CLAUSE MAP: the first three conjuncts are `rfl` restatements of `searched`, the last two unfold one `if`/`match`; that
+`searched` is what `get_content(strict=False)` does is carried by the `bd` tie (every HTTP message of the pool).  The
+statements with content are `body_searched_some` (a decoder failure never takes the body away) and `bodyLeaf_total`. -/
 theorem body_searched (dec : Str → Bytes → Option Bytes) (raw : Bytes) (c : Str) (hc : c ≠ []) :
     searched dec ⟨none, some c⟩ = none ∧
     searched dec ⟨some raw, none⟩ = some raw ∧
@@ -358,7 +364,9 @@ theorem bodyLeaf_total (search : Bytes → Bool) (dec : Str → Bytes → Option
   · simp [bodyLeaf, searched, hc, hd]
   · cases bodyLeaf search dec ms <;> simp
 
-/-- Every tree has a verdict on every flow: evaluation never fails, whatever the leaves are. -/
+/-- Every tree has a verdict on every flow: evaluation never fails, whatever the leaves are.  (True by typing - `eval` is
+a total Bool-valued function; stated only because the statement says "for every flow its verdict …".  That the REAL
+filter call yields a Boolean on every flow is the oracle clause "raised".) -/
 theorem eval_total {Flow : Type} (sem : Sem Flow) (t : Ast) (f : Flow) : eval sem t f = true ∨ eval sem t f = false := by
   cases eval sem t f <;> simp
 
@@ -401,9 +409,12 @@ private theorem spec_family (a : Str) :
   obtain ⟨⟨a1, a2, a3⟩, ⟨b1, b2, b3⟩, ⟨c1, c2, c3⟩, ⟨d1, d2, d3⟩, ⟨e1, e2, e3⟩, ⟨f1, f2, f3⟩⟩ := h
   refine ⟨?_, ?_, ?_, ?_, ?_, ?_⟩ <;> simp only [specOf, a1, a2, a3, b1, b2, b3, c1, c2, c3, d1, d2, d3, e1, e2, e3, f1, f2, f3]
 
-/-- The composition: with the table's leaf semantics, a regex leaf is "the regex, compiled with the operator's flags,
-matches one of the parts of the flow the operator reads", `~c n` is the status test, and every composite node is
-not / all / any of its members. -/
+/-- CLAUSE MAP, not an independent result: the first three conjuncts hold by `rfl` - they spell out what `docSem` is
+(a regex leaf is "the regex, compiled with the operator's flags, matches one of the parts of the flow the operator
+reads", `~c n` is the status test, a unary operator is `unaryV`); the last three are `eval_not` / `eval_and_all` /
+`eval_or_any`.  That `leafReads` / `specOf` / `unaryV` / `intV` are what the CODE does is carried by the `lv` tie (every
+operator on every pool flow, predicted vs real) - and what they imply is in `rex_flags_pinned`, `only_http`,
+`only_gating`, `both_sides_split`, `body_ops_http`, `unary_table`. -/
 theorem doc_eval (search : RxSpec → Bytes → Bool) (dec : Str → Bytes → Option Bytes) (f : FlowView) :
     (∀ c a, eval (docSem search dec) (.rex c a) f = (leafReads dec c f).any (search (specOf c a))) ∧
     (∀ c, eval (docSem search dec) (.unary c) f = unaryV search c f) ∧
